@@ -1,6 +1,7 @@
 import GrafeoModel.Props.C20Mem
 import GrafeoModel.Props.C20Rdf
 import GrafeoModel.Props.C20Locks
+import GrafeoModel.Props.C20Lpg
 import GrafeoModel.Props.C03
 
 /-!
@@ -10,6 +11,8 @@ import GrafeoModel.Props.C03
   accounting returns to the held bytes, for every interleaving of every program;
 * triple-store clause: `Props/C20Rdf.lean` — every interleaving of inserts/removes is linearizable
   and leaves the indexes consistent with the primary set;
+* property-graph clause: `Props/C20Lpg.lean` — every interleaving of delete_node / add_label /
+  remove_label / property writes is linearizable (create_node: correspondence only);
 * deadlock clause: `Props/C20Locks.lean` — the lock graph regenerated from the source is ranked,
   and a ranked lock graph admits no deadlock;
 * commit epochs: `TransactionManager::commit` runs under one write lock (one step in any
